@@ -3,5 +3,6 @@ CONSTANTS
   ResetOnSkip = FALSE
   MaxLen = 5
   Alpha <- AlphaA6
+  Sweep = FALSE
   Export = FALSE
 INVARIANTS TicksAsDocumented
